@@ -104,11 +104,15 @@ def generate(rng, seed, index, tier):
             op = {"op": "solve", "sid": s["sid"], "x0": x0, "y0": y0, "obs": gen.gen_obs(rng), "clock": gen.gen_clock(rng, n=300), "faults": []}
             r = rng.random()
             if r < 0.15:
-                op["clock"] = {"t0": 1000.0, "expire_at_read": int(rng.integers(2, 40))}
+                op["clock"] = {"expire_at_read": int(rng.integers(2, 40))}
             elif r < 0.25:
                 op["faults"] = [{"dev": "eval", "comp": str(rng.choice(["obj", "grad"])), "at_x0": True, "kind": "nan"}]
             elif r < 0.4:
                 op["faults"] = [{"dev": "eval", "comp": str(rng.choice(["obj", "grad", "hess"])), "at": int(rng.integers(2, 30)), "kind": "nan"}]
+        if "t0" not in op["clock"]:
+            # virtual time goes on between the solves of a process; the isolated twin is given the same
+            # absolute clock plan, so only the *origin* an implementation measures from can differ
+            op["clock"] = dict(op["clock"], t0=gen.T0 + 1000.0 * len(hist))
         hist.append(op)
         last = op
     w = gen.base_world(seed, ID, index, None, [], [], {}, case={"problems": problems, "params_list": plist, "history": hist})
